@@ -567,13 +567,31 @@ def snap_obj(fmt, obj):
 _MISSING = object()
 
 
-def apply_mod(fmt, obj, mod):
+def apply_mod(fmt, obj, mod, inplace=False):
     """one modification of the real object graph; returns a function that undoes it (restores the previous value):
        {"path": p, "set": attr, "value": protocol value}                      setattr
        {"path": p, "setitem": attr, "keys": [k1, ..], "value": v}             part.attr[k1]..[kn] = v
        {"path": p, "rekey": [old, new]}                                       container.variants: move a child to another key
     """
     part = dict(all_parts(fmt, obj))[mod["path"]]
+    if "set" in mod and inplace:
+        # the same change made IN PLACE on the container the attribute holds (d.clear(); d.update(new) / l[:] = new): no
+        # attribute is assigned, so anything keyed on assignment (a "validated" flag reset by __setattr__, …) does not notice
+        cur, new = getattr(part, mod["set"], _MISSING), dec(copy.deepcopy(mod["value"]))
+        for typ in (dict, list, set):
+            if isinstance(cur, typ) and isinstance(new, typ):
+                saved = copy.copy(cur)
+                if typ is list:
+                    cur[:] = new
+                else:
+                    cur.clear(); cur.update(new)
+
+                def undo():
+                    if typ is list:
+                        cur[:] = saved
+                    else:
+                        cur.clear(); cur.update(saved)
+                return undo
     if "set" in mod:
         old = getattr(part, mod["set"], _MISSING)
         setattr(part, mod["set"], dec(copy.deepcopy(mod["value"])))
